@@ -91,6 +91,18 @@ def oracle_C09(results, metas, st):
     out = []
     for r in results:
         c = r['case']
+        if c[2] == 'run' and isinstance(r['cxx'], list):
+            # inside real iterations: the map is only ever asked for an enabled, existing channel
+            spec = c[3]; chk = next((e[1] for e in spec if e[0] == 'chk'), None)
+            nch = next((e[1] for e in spec if e[0] == 'channels'), 1)
+            for it in find_items(r['cxx'], 'run'):
+                for e in (find_items(it, 'events') or [['events']])[0][1:]:
+                    if e[0] == 'mc' and (e[1] >= nch or e[1] not in e[3]):
+                        out.append(viol('channel %d selected in a run with %d channels of which %s are enabled' % (e[1], nch, e[3]), [c])); break
+            for x in r['cxx']:
+                if isinstance(x, str) and x in ('exception', 'crash') or (isinstance(x, list) and x and x[0] in ('exception', 'crash')):
+                    out.append(viol('the run did not terminate normally: %s' % dump(r['cxx'])[:200], [c])); break
+            continue
         if c[2] != 'select' or not isinstance(r['cxx'], list) or len(r['cxx']) != 1 or not isinstance(r['cxx'][0], int):
             continue
         fmt = FMTS[c[1]]
